@@ -1,4 +1,5 @@
 import ChessVerif.Props.C08
+import ChessVerif.Props.C08.All
 open Chess.Props.C08
 #print axioms rook_mask_covers
 #print axioms bishop_mask_covers
